@@ -1,30 +1,42 @@
 /-!
-C18 / C09, the housekeeping runner (`pkg/runner/periodic`, and the default one-goroutine-per-registration runner of
+C18 / C09 / C13, the housekeeping runner (`pkg/runner/periodic`, and the default one-goroutine-per-registration runner of
 `options/config`).  Connections and servers register a function `now ↦ still wanted?`; the runner calls every registered
 function once per period and forgets a function as soon as it has answered "no".  "Closed at the first housekeeping tick
-after the period" (C18) and "a closed datagram peer's shutdown is completed by the server's sweep" (C09) both rest on it:
-a runner that skips, replaces or drops a live registration silently disables a monitor.
+after the period" (C18), "a closed datagram peer's shutdown is completed by the server's sweep" (C09) and "every table
+entry is removed by the expiry sweep at the latest" (C13) all rest on it: a runner that skips, replaces or drops a live
+registration silently disables a monitor / a sweep.
 
-State: the live registrations in registration order, each with the flag "answers no at its next call".
+State: the live registrations in registration order, each with the flags "answers no at its next call" and "registers
+another function during its next call" (a connection dialled from inside a housekeeping callback, a server started there).
 -/
 namespace CoapVerif.Model.Runner
 
 structure Reg where
   id : Nat
   finishing : Bool := false
+  nest : Option Nat := none
   deriving Repr, DecidableEq
 
 inductive Op
-  | reg (k : Nat)      -- a function is registered (the harness uses fresh ids)
-  | fin (k : Nat)      -- function k will answer "no" at its next call
-  | tick               -- one period elapses
+  | reg (k : Nat)          -- a function is registered (the harness uses fresh ids)
+  | fin (k : Nat)          -- function k will answer "no" at its next call
+  | nest (k j : Nat)       -- function k will register function j during its next call
+  | tick                   -- one period elapses
   deriving Repr, DecidableEq
+
+def ids (s : List Reg) : List Nat := s.map (·.id)
+def nestIds (s : List Reg) : List Nat := s.filterMap (·.nest)
+
+/-- what survives a tick: the registrations that did not answer "no", their one-shot flags used up -/
+def survivors (s : List Reg) : List Reg := (s.filter (fun r => !r.finishing)).map (fun r => { r with nest := none })
 
 /-- `callsAtReg`: the default runner calls a function once at registration, the shared ticker does not. -/
 def step (callsAtReg : Bool) (s : List Reg) : Op → List Reg × List Nat
   | .reg k => (s ++ [{ id := k }], if callsAtReg then [k] else [])
   | .fin k => (s.map (fun r => if r.id = k then { r with finishing := true } else r), [])
-  | .tick => (s.filter (fun r => !r.finishing), s.map (·.id))
+  | .nest k j => (s.map (fun r => if r.id = k then { r with nest := some j } else r), [])
+  | .tick => (survivors s ++ (nestIds s).map (fun j => { id := j }),
+              ids s ++ (if callsAtReg then nestIds s else []))
 
 def run (callsAtReg : Bool) (s : List Reg) : List Op → List Reg × List (List Nat)
   | [] => (s, [])
@@ -32,7 +44,5 @@ def run (callsAtReg : Bool) (s : List Reg) : List Op → List Reg × List (List 
     let (s1, c) := step callsAtReg s o
     let (s2, cs) := run callsAtReg s1 r
     (s2, c :: cs)
-
-def ids (s : List Reg) : List Nat := s.map (·.id)
 
 end CoapVerif.Model.Runner
